@@ -57,7 +57,8 @@ REQUIRED = ["trees_measured_from_inside_a_traversal", "trees", "length_checked",
             "node_features_checked", "counts_checked", "branch_order_checked", "sholl_intersect_checked",
             "sholl_get_checked", "sholl_exact_threshold_radii", "sholl_fixed_step_checked",
             "sholl_summaries_checked", "trees_measured_under_custom_column_names",
-            "densely_sampled_long_trees", "front_ends_whose_results_the_caller_overwrites", "lmeasure_tree_checked",
+            "densely_sampled_long_trees", "front_ends_whose_results_the_caller_overwrites",
+            "population_sholl_at_explicit_radii", "lmeasure_tree_checked",
             "lmeasure_node_checked", "lmeasure_bif_checked", "lmeasure_branch_checked",
             "frontend_tree_checked", "frontend_population_checked", "population_padding_checked",
             "frontend_requeried", "feature_queries_in_random_order",
@@ -493,6 +494,21 @@ def exec_population(ctx, case):
                 if int(got[i, j]) != r.sholl(rad):
                     raise Mismatch("sholl-count", f"population sholl row {i} radius {rad!r}: "
                                                   f"{got[i, j]}, definition gives {r.sholl(rad)}")
+        # explicit radii for the whole population: descending, and reaching beyond every tree
+        arr = np.concatenate([np.linspace(1.3 * rmax, 0.05 * rmax, 7), [2.5 * rmax]])
+        got = np.asarray(fe.get("sholl", steps=arr))
+        if got.shape != (len(trees), len(arr)):
+            raise Mismatch("population-shape", f"sholl at {len(arr)} explicit radii: shape "
+                                               f"{got.shape}, expected ({len(trees)}, {len(arr)})")
+        for i, r in enumerate(refs):
+            for j, rad in enumerate(arr):
+                if r.sholl_margin(float(rad)) < 1e-5 * rmax + 1e-30:
+                    continue
+                ctx.count("population_sholl_at_explicit_radii")
+                if int(got[i, j]) != r.sholl(float(rad)):
+                    raise Mismatch("sholl-count", f"population sholl (explicit descending radii) row "
+                                                  f"{i} radius {float(rad)!r}: {got[i, j]}, "
+                                                  f"definition gives {r.sholl(float(rad))}")
         ctx.count("frontend_population_checked")
     except Mismatch as m:
         ctx.violation(m.mech, m.detail, case)
